@@ -363,7 +363,7 @@ fn dispatch_bb(cmd: &str, args: &[String], tier: &String, seed: u64, out: &Strin
             props::c03::run(&tier, seed, &out, &engine_hooks(&args));
             0
         }
-        "c03-one" => props::c03::replay(&arg(&args, "--history").unwrap(), &engine_hooks(&args)),
+        "c03-one" => props::c03::replay(&arg(&args, "--history").unwrap(), &engine_hooks(&args), arg(&args, "--nodes-per-ms").and_then(|x| x.parse().ok()).unwrap_or(1)),
         "c13" => {
             props::c13::run(&tier, seed, &out, &engine_hooks(&args));
             0
